@@ -173,6 +173,8 @@ def run_check(prop, tier, budget_s, workers):
                     nxt = next(sweep_iter, None)
                     if nxt is None:
                         sweeping = False
+                        # the seeded search always gets at least half of the budget
+                        deadline = max(deadline, time.monotonic() + budget_s / 2)
                         continue
                     pending.add(ex.submit(_work_explicit, (prop, nxt[0], nxt[1])))
                 else:
@@ -254,9 +256,29 @@ def _report_violation(prop, key, seed, case, f, known):
     if match_known(f2, known) is not None:
         # minimisation walked into a listed finding: report the unminimised case instead
         small, f2 = case, f
+    extra = {"original_ops": len(case["ops"]), "shrink_execs": used}
+    if f2.get("witness") in ("scripted", "truncated"):
+        # does the same violation class also appear with the real solver on the minimised problem?
+        import copy
+
+        from sim.runner import HarnessFailure, judge_case
+        from sim.shrink import same_class
+
+        real_case = copy.deepcopy(small)
+        for op in real_case["ops"]:
+            o = op[2] if op[0] == "with_reclimit" else op
+            if o[0] == "solve":
+                for k in ("peer", "peers"):
+                    o[2].pop(k, None)
+        try:
+            rf = same_class(judge_case(prop, real_case)["findings"], prop, oracle)
+        except HarnessFailure:
+            rf = None
+        extra["witness"] = f2.get("witness")
+        extra["confirmed_with_real_scipy_on_minimised_problem"] = rf is not None
     slug = re.sub(r"[^A-Za-z0-9]+", "-", oracle).strip("-")[:60]
     path = os.path.join(OUT, "replays", f"{prop}-{slug}-{seed}.json")
-    write_replay(path, prop, seed, small, f2, {"original_ops": len(case["ops"]), "shrink_execs": used})
+    write_replay(path, prop, seed, small, f2, extra)
     env = dict(os.environ)
     p = subprocess.run([sys.executable, os.path.abspath(__file__), "--replay", path], capture_output=True, text=True, env=env, timeout=600)
     if p.returncode != 1 or f"VIOLATION property={prop}" not in p.stdout:
